@@ -24,7 +24,7 @@ let dispatch cmd =
   | "em_mwem" -> let q = rl () in let eps = rf () in let b = ri () = 1 in out (em_mwem fops q eps b)
   | "laplace_scale" -> let b = ri () = 1 in let l1 = rf () in let eps = rf () in out [laplace_scale fops b l1 eps]
   | "gaussian_scale" -> let b = ri () = 1 in let l2 = rf () in let s = rf () in out [gaussian_scale fops b l2 s]
-  | _ -> Num_ext.dispatch cmd
+  | _ -> Num_ext.dispatch cmd !toks
 let () =
   try while true do
     let line = input_line stdin in
